@@ -43,6 +43,38 @@ def _issue(c, kind, tag):
         c.fire_and_forget(p)
 
 
+class RefLease:
+    """reference model of a lease-honouring requester (RSocket 1.0 LEASE semantics + the library's documented queue):
+    a request goes out at once iff the current lease is unexpired and has capacity, otherwise it is retained (FIFO,
+    up to the queue size; beyond that the caller gets QueueFull); an arriving LEASE replaces the lease and releases
+    retained requests in order while it allows."""
+
+    def __init__(self, qsize):
+        self.qsize = qsize
+        self.queue = []
+        self.count = 0
+        self.used = 0
+        self.expires = 0
+        self.sent = []
+
+    def _allowed(self, now):
+        if now >= self.expires:
+            return False
+        self.used += 1
+        return self.used <= self.count
+
+    def issue(self, sid, now):
+        if self._allowed(now):
+            self.sent.append(sid)
+        elif self.qsize == 0 or len(self.queue) < self.qsize:
+            self.queue.append(sid)
+
+    def lease(self, count, ttl_us, now):
+        self.count, self.used, self.expires = count, 0, now + ttl_us
+        while self.queue and self._allowed(now):
+            self.sent.append(self.queue.pop(0))
+
+
 def _requests(t):
     """request frames on the wire with their virtual send time, in order (first fragments only)"""
     return [(ts, f) for ts, f in t.sent if isinstance(f, REQ_TYPES)]
@@ -78,7 +110,14 @@ def c_requester(count: int, ttl_ms: int, dt1_us: int, dt2_us: int, count2: int) 
         devs = []
         issued = []          # (tag, kind, accepted)
         tag = 0
+        ref = RefLease(QSIZE)
+
+        def ref_check(where):
+            ids = [f.stream_id for _, f in _requests(t)]
+            if ids != ref.sent:
+                devs.append('C14:request-sequence-differs-from-reference-lease-model:' + where)
         for i in range(NB):
+            ref.issue(2 * tag + 1, loop.now_us())
             try:
                 _issue(c, kinds[tag], tag)
                 issued.append(tag)
@@ -92,7 +131,9 @@ def c_requester(count: int, ttl_ms: int, dt1_us: int, dt2_us: int, count2: int) 
         queued_before = list(issued) if QSIZE == 0 else issued[:QSIZE]
         # first lease
         t.feed_wire(_lease_frame(count, ttl_ms))
+        ref.lease(count, ttl_ms * 1000, loop.now_us())
         loop.run_ready()
+        ref_check('after-first-lease')
         t_lease1 = loop.now_us()
         released = [f for _, f in _requests(t)]
         usable1 = ttl_ms > 0
@@ -103,6 +144,7 @@ def c_requester(count: int, ttl_ms: int, dt1_us: int, dt2_us: int, count2: int) 
         n_under1 = len(released)
         for i in range(NA):
             before = len(_requests(t))
+            ref.issue(2 * tag + 1, loop.now_us())
             try:
                 _issue(c, kinds[tag], tag)
             except Exception as e:
@@ -110,6 +152,7 @@ def c_requester(count: int, ttl_ms: int, dt1_us: int, dt2_us: int, count2: int) 
                     devs.append('request-raised:' + type(e).__name__)
             tag += 1
             loop.run_ready()
+            ref_check('after-request')
             new = len(_requests(t)) - before
             expired = loop.now_us() >= t_lease1 + ttl_ms * 1000
             if new > 0:
@@ -125,18 +168,22 @@ def c_requester(count: int, ttl_ms: int, dt1_us: int, dt2_us: int, count2: int) 
         if second_lease:
             before = len(_requests(t))
             t.feed_wire(_lease_frame(count2, ttl_ms))
+            ref.lease(count2, ttl_ms * 1000, loop.now_us())
             loop.run_ready()
+            ref_check('after-second-lease')
             t_lease2 = loop.now_us()
             rel2 = len(_requests(t)) - before
             if rel2 > count2 or (ttl_ms == 0 and rel2 > 0):
                 devs.append('more-requests-than-second-lease-granted')
             loop.advance_us(dt2_us)
             before = len(_requests(t))
+            ref.issue(2 * tag + 1, loop.now_us())
             try:
                 _issue(c, 0, 9)
             except Exception:
                 pass
             loop.run_ready()
+            ref_check('after-last-request')
             new = len(_requests(t)) - before
             if new and (loop.now_us() >= t_lease2 + ttl_ms * 1000 or rel2 + new > count2):
                 devs.append('second-lease-limits-not-enforced')
